@@ -11,6 +11,7 @@
 #include "QXmppStun.h"
 
 #include <QRegularExpression>
+#include <QUdpSocket>
 #include <QtEndian>
 
 using namespace sim;
@@ -172,7 +173,7 @@ public:
     QString describe() const override
     {
         return QStringLiteral("real: QXmppIceConnection/QXmppIceComponent (candidate pairing, checks, triggered checks, nomination, selection), QXmppStunTransaction (retransmission timers), QXmppStunMessage codec, QXmppUdpTransport ; "
-                              "stub: UDP (QUdpSocket entry points interposed at link time onto an in-process datagram network), clock and timers, randomness, the signalling channel (credentials and candidates handed over by scheduler ops), a forger without credentials with its own STUN encoder (OpenSSL HMAC); optional full-cone NAT and a STUN server (own encoder) for server-reflexive candidates; TURN relays are not simulated");
+                              "stub: UDP (QUdpSocket entry points interposed at link time onto an in-process datagram network), clock and timers, randomness, the signalling channel (credentials and candidates handed over by scheduler ops), a forger without credentials with its own STUN encoder (OpenSSL HMAC); optional full-cone NAT and a STUN server (own encoder) for server-reflexive candidates; optional TURN server (own implementation of allocation with long-term credentials, channel binding and ChannelData relaying) for relayed candidates, with the direct paths between the agents optionally unusable");
     }
 
     Plan generate(quint64 seed, const QString &tier) override
@@ -188,6 +189,16 @@ public:
         k[QStringLiteral("natA")] = r.chance(0.2);
         k[QStringLiteral("natB")] = r.chance(0.2);
         k[QStringLiteral("stunLoss")] = r.chance(0.3);
+        {
+            // TURN (drawn from its own stream so that the other knobs of a seed stay what they were): an agent may hold a
+            // relayed candidate on a simulated TURN server; the direct paths between the agents may then be unusable
+            Prng rt(derive(seed, "c15turn"));
+            const bool turnRun = rt.chance(0.18);
+            const int who = (int)rt.uniform(3);   // 0: A, 1: B, 2: both
+            k[QStringLiteral("turnA")] = turnRun && who != 1;
+            k[QStringLiteral("turnB")] = turnRun && who != 0;
+            k[QStringLiteral("directBlocked")] = turnRun && k[QStringLiteral("natA")] == 0 && k[QStringLiteral("natB")] == 0 && rt.chance(0.5);
+        }
         const bool attack = r.chance(0.55);
         const int nCands = 4;   // upper bound used for op arguments (interpreted modulo what exists)
         QVector<Op> setup;
@@ -287,6 +298,201 @@ public:
                     seenRequests.append({ d.src, d.sport, d.dst, d.dport, d.data });
                 }
             };
+            // ---- a TURN server (RFC 5766, long-term credentials) as a node of the datagram network: allocations, channel
+            // bindings (which also install the permission), ChannelData in both directions. Everything it forwards is
+            // handed over at once: loss, duplication and reordering act on the agent-to-server leg.
+            const bool turn[2] = { plan.knob(QStringLiteral("turnA")) == 1, plan.knob(QStringLiteral("turnB")) == 1 };
+            const bool directBlocked = plan.knob(QStringLiteral("directBlocked")) == 1;
+            const QHostAddress turnAddr(QStringLiteral("198.51.100.2"));
+            const QByteArray turnRealm = "sim.example", turnUser = "turnuser", turnPass = "turnpass";
+            const QByteArray turnKey = simcrypto::hash("MD5", turnUser + ':' + turnRealm + ':' + turnPass);
+            struct TurnAlloc {
+                QHostAddress client;
+                quint16 cport = 0;
+                quint16 relayPort = 0;
+                QMap<quint16, QPair<QHostAddress, quint16>> channels;
+            };
+            QList<TurnAlloc> allocs;
+            quint16 nextRelayPort = 50000;
+            auto turnReply = [&](const Datagram &req, const QByteArray &bytes) {
+                Datagram r;
+                r.src = turnAddr;
+                r.sport = 3478;
+                r.dst = req.src;
+                r.dport = req.sport;
+                r.data = bytes;
+                net.deliver(r);
+            };
+            auto turnHandle = [&](const Datagram &d) -> bool {
+                if (d.dst != turnAddr) {
+                    return false;
+                }
+                if (d.dport != 3478) {
+                    // a datagram for a relayed address: carried to the client if it bound a channel to that peer
+                    for (const auto &al : std::as_const(allocs)) {
+                        if (al.relayPort != d.dport) {
+                            continue;
+                        }
+                        for (auto it = al.channels.constBegin(); it != al.channels.constEnd(); ++it) {
+                            if (it.value().first == d.src && it.value().second == d.sport) {
+                                QByteArray cd;
+                                put16(cd, it.key());
+                                put16(cd, (quint16)d.data.size());
+                                cd += d.data;
+                                Datagram r;
+                                r.src = turnAddr;
+                                r.sport = 3478;
+                                r.dst = al.client;
+                                r.dport = al.cport;
+                                r.data = cd;
+                                out.probes[QStringLiteral("turn_relayed_to_client")]++;
+                                net.deliver(r);
+                                return true;
+                            }
+                        }
+                        out.probes[QStringLiteral("turn_dropped_no_permission")]++;
+                        return true;
+                    }
+                    return true;
+                }
+                TurnAlloc *mine = nullptr;
+                for (auto &al : allocs) {
+                    if (al.client == d.src && al.cport == d.sport) {
+                        mine = &al;
+                    }
+                }
+                if (d.data.size() >= 4 && (d.data[0] & 0xc0) == 0x40) {
+                    const quint16 ch = qFromBigEndian<quint16>(reinterpret_cast<const uchar *>(d.data.constData()));
+                    const int len = qFromBigEndian<quint16>(reinterpret_cast<const uchar *>(d.data.constData()) + 2);
+                    if (mine && mine->channels.contains(ch) && len <= d.data.size() - 4) {
+                        Datagram r;
+                        r.src = turnAddr;
+                        r.sport = mine->relayPort;
+                        r.dst = mine->channels[ch].first;
+                        r.dport = mine->channels[ch].second;
+                        r.data = d.data.mid(4, len);
+                        out.probes[QStringLiteral("turn_relayed_to_peer")]++;
+                        net.deliver(r);
+                    } else {
+                        out.probes[QStringLiteral("turn_channel_data_for_unbound_channel")]++;
+                    }
+                    return true;
+                }
+                const StunView v = parseStun(d.data);
+                if (!v.ok || (v.type & 0x0110) != 0) {
+                    return true;
+                }
+                auto attr = [&](quint16 t) -> QByteArray {
+                    for (const auto &a : v.attrs) {
+                        if (a.first == t) {
+                            return a.second;
+                        }
+                    }
+                    return QByteArray();
+                };
+                auto has = [&](quint16 t) {
+                    for (const auto &a : v.attrs) {
+                        if (a.first == t) {
+                            return true;
+                        }
+                    }
+                    return false;
+                };
+                auto errorReply = [&](int code) {
+                    QByteArray ec(4, '\0');
+                    ec[2] = (char)(code / 100);
+                    ec[3] = (char)(code % 100);
+                    ec += "Unauthorized";
+                    turnReply(d, buildStun((quint16)(v.type | 0x0110), v.id, { { 0x0009, ec }, { 0x0014, turnRealm }, { 0x0015, QByteArray("nonce-1") } }, 0, {}, false));
+                };
+                // long-term credentials: MESSAGE-INTEGRITY over the message up to the attribute, length field covering it
+                bool authentic = false;
+                if (has(0x0008) && attr(0x0006) == turnUser && attr(0x0014) == turnRealm) {
+                    int off = 20;
+                    const auto *p = reinterpret_cast<const uchar *>(d.data.constData());
+                    while (off + 4 <= d.data.size()) {
+                        const quint16 t = qFromBigEndian<quint16>(p + off);
+                        const int l = qFromBigEndian<quint16>(p + off + 2);
+                        if (t == 0x0008) {
+                            QByteArray head = d.data.left(off);
+                            setLen(head, off - 20 + 24);
+                            authentic = l == 20 && simcrypto::hmac("SHA1", turnKey, head) == d.data.mid(off + 4, 20);
+                            break;
+                        }
+                        off += 4 + ((l + 3) & ~3);
+                    }
+                }
+                if (!authentic) {
+                    out.probes[QStringLiteral("turn_401")]++;
+                    errorReply(401);
+                    return true;
+                }
+                const quint16 method = v.type & 0x3eef;
+                if (method == 0x0003) {   // Allocate
+                    if (!mine) {
+                        TurnAlloc al;
+                        al.client = d.src;
+                        al.cport = d.sport;
+                        al.relayPort = nextRelayPort++;
+                        allocs.append(al);
+                        mine = &allocs.last();
+                        out.probes[QStringLiteral("turn_allocation")]++;
+                    }
+                    QByteArray life;
+                    put32(life, 600);
+                    turnReply(d, buildStun(0x0103, v.id, { { 0x0016, xorAddr(turnAddr, mine->relayPort) }, { 0x000d, life }, { 0x0020, xorAddr(d.src, d.sport) } }, 1, turnKey, false));
+                } else if (method == 0x0009) {   // ChannelBind
+                    const QByteArray cn = attr(0x000c), pa = attr(0x0012);
+                    if (mine && cn.size() == 4 && pa.size() == 8) {
+                        const quint16 ch = qFromBigEndian<quint16>(reinterpret_cast<const uchar *>(cn.constData()));
+                        const quint16 port = qFromBigEndian<quint16>(reinterpret_cast<const uchar *>(pa.constData()) + 2) ^ (quint16)(MAGIC >> 16);
+                        const QHostAddress host(qFromBigEndian<quint32>(reinterpret_cast<const uchar *>(pa.constData()) + 4) ^ MAGIC);
+                        mine->channels[ch] = qMakePair(host, port);
+                        out.probes[QStringLiteral("turn_channel_bound")]++;
+                        turnReply(d, buildStun(0x0109, v.id, {}, 1, turnKey, false));
+                    } else {
+                        errorReply(400);
+                    }
+                } else if (method == 0x0004) {   // Refresh
+                    const QByteArray lt = attr(0x000d);
+                    QByteArray life;
+                    const quint32 want = lt.size() == 4 ? qFromBigEndian<quint32>(reinterpret_cast<const uchar *>(lt.constData())) : 600;
+                    put32(life, want);
+                    if (mine && want == 0) {
+                        for (int i = 0; i < allocs.size(); ++i) {
+                            if (&allocs[i] == mine) {
+                                allocs.removeAt(i);
+                                break;
+                            }
+                        }
+                    }
+                    turnReply(d, buildStun(0x0104, v.id, { { 0x000d, life } }, 1, turnKey, false));
+                } else {
+                    turnReply(d, buildStun((quint16)(v.type | 0x0100), v.id, {}, 1, turnKey, false));
+                }
+                return true;
+            };
+            if (turn[0] || turn[1]) {
+                net.onUnbound = turnHandle;
+            }
+            // a socket bound to "any" (the TURN client socket) uses the first address of the agent that owns it
+            net.anyAddress = [&](QUdpSocket *s) {
+                for (QObject *o = s; o; o = o->parent()) {
+                    for (int a = 0; a < 2; ++a) {
+                        if (o == ag[a].conn) {
+                            return ag[a].addrs.first();
+                        }
+                    }
+                }
+                return QHostAddress(QHostAddress::AnyIPv4);
+            };
+            if (directBlocked) {
+                // the agents cannot reach each other directly (10.0.1.x <-> 10.0.2.x): only a relayed path works
+                net.blocked = [](const Datagram &d) {
+                    const quint32 s = d.src.toIPv4Address() >> 8, t = d.dst.toIPv4Address() >> 8;
+                    return (s == 0x0a0001 && t == 0x0a0002) || (s == 0x0a0002 && t == 0x0a0001);
+                };
+            }
             for (int a = 0; a < 2; ++a) {
                 auto &g = ag[a];
                 g.conn = new QXmppIceConnection(&ctx);
@@ -320,6 +526,9 @@ public:
                             };
                             const quint64 got = mt.captured(5).toULongLong();
                             out.probes[QStringLiteral("selected_pair_priority_checked")]++;
+                            if (mt.captured(1) == QLatin1String("198.51.100.2") || mt.captured(3) == QLatin1String("198.51.100.2")) {
+                                out.probes[QStringLiteral("selected_pair_uses_turn_relay")]++;
+                            }
                             if (!localPrio || !remoteHostPrio) {
                                 out.problems << QStringLiteral("C15:selected_pair_not_between_advertised_candidates|%1 selected a pair that is not made of advertised candidates: %2").arg(ag[a].name, m);
                             } else if (got != pairPrio(localPrio, remoteHostPrio) && got != pairPrio(localPrio, remotePrflxPrio)) {
@@ -354,6 +563,11 @@ public:
                 if (natted[a]) {
                     g.conn->setStunServer(stunAddr, 3478);
                 }
+                if (turn[a]) {
+                    g.conn->setTurnServer(turnAddr, 3478);
+                    g.conn->setTurnUser(QString::fromLatin1(turnUser));
+                    g.conn->setTurnPassword(QString::fromLatin1(turnPass));
+                }
                 const int socketsBefore = net.sockets.size();
                 if (!g.conn->bind(g.addrs)) {
                     out.problems << QStringLiteral("C15:bind_failed|bind on simulated addresses failed");
@@ -365,11 +579,21 @@ public:
                 }
             }
             // ---- candidate gathering: the STUN server tells each agent behind a NAT its public mapping
-            if (natted[0] || natted[1]) {
+            if (natted[0] || natted[1] || turn[0] || turn[1]) {
                 bool lostOne = plan.knob(QStringLiteral("stunLoss")) != 1;
                 for (int guard = 0; guard < 60; ++guard) {
                     while (!net.inflight.isEmpty()) {
                         const Datagram d = net.inflight.takeFirst();
+                        if (d.dst == turnAddr) {
+                            if (!lostOne) {
+                                lostOne = true;
+                                out.faults[QStringLiteral("turn_server_request_lost")]++;
+                                continue;
+                            }
+                            turnHandle(d);
+                            settle();
+                            continue;
+                        }
                         if (!(d.dst == stunAddr && d.dport == 3478)) {
                             continue;
                         }
@@ -403,7 +627,15 @@ public:
                     disp->fireOneDue(0);
                     settle();
                 }
-                out.probes[QStringLiteral("agent_behind_nat")]++;
+                if (natted[0] || natted[1]) {
+                    out.probes[QStringLiteral("agent_behind_nat")]++;
+                }
+                if (turn[0] || turn[1]) {
+                    out.probes[QStringLiteral("agent_with_turn_relay")]++;
+                }
+                if (directBlocked) {
+                    out.probes[QStringLiteral("direct_paths_unusable_relay_needed")]++;
+                }
             }
             for (int a = 0; a < 2; ++a) {
                 ag[a].locals = ag[a].conn->localCandidates();
@@ -415,7 +647,7 @@ public:
             }
             // ---- advertised priorities (RFC 5245 4.1.2.1): type preference 126 (host) / 100 (server reflexive), component in the low byte
             for (int a = 0; a < 2; ++a) {
-                const int expectCount = comps * ag[a].addrs.size() * (natted[a] ? 2 : 1);
+                const int expectCount = comps * ag[a].addrs.size() * (natted[a] ? 2 : 1) + (turn[a] ? comps : 0);
                 if (ag[a].locals.size() != expectCount) {
                     out.problems << QStringLiteral("C15:candidate_count|%1 advertises %2 candidates, expected %3 (%4 components x %5 addresses%6)").arg(ag[a].name).arg(ag[a].locals.size()).arg(expectCount).arg(comps).arg(ag[a].addrs.size()).arg(natted[a] ? QStringLiteral(", host and server-reflexive") : QString());
                 }
@@ -423,7 +655,8 @@ public:
                     const quint32 pr = (quint32)c.priority();
                     const quint32 localPref = (pr >> 8) & 0xffff;
                     const bool host = c.type() == QXmppJingleCandidate::HostType, srflx = c.type() == QXmppJingleCandidate::ServerReflexiveType;
-                    const quint32 expect = ((host ? 126u : 100u) << 24) + (localPref << 8) + (256 - c.component());
+                    const bool relayed = turn[a] && c.type() == QXmppJingleCandidate::RelayedType;
+                    const quint32 expect = ((host ? 126u : (srflx ? 100u : 0u)) << 24) + (localPref << 8) + (256 - c.component());
                     bool addressOk = false;
                     if (host) {
                         addressOk = net.findAddr(c.host(), c.port()) != nullptr;
@@ -431,8 +664,12 @@ public:
                         for (const auto &m : std::as_const(net.nat)) {
                             addressOk = addressOk || (m.pub == c.host() && m.pubPort == c.port());
                         }
+                    } else if (relayed) {
+                        for (const auto &al : std::as_const(allocs)) {
+                            addressOk = addressOk || (c.host() == turnAddr && al.relayPort == c.port());
+                        }
                     }
-                    if (!(host || srflx) || pr != expect || !addressOk) {
+                    if (!(host || srflx || relayed) || pr != expect || !addressOk) {
                         out.problems << QStringLiteral("C15:advertised_priority|%1 advertises candidate %2:%3 component %4 type %5 with priority %6 (expected %7)").arg(ag[a].name, c.host().toString()).arg(c.port()).arg(c.component()).arg((int)c.type()).arg(pr).arg(expect);
                     }
                 }
